@@ -12,6 +12,8 @@ structure St where
   types : Std.HashMap String Node := {}
   vals : Std.HashMap String Val := {}
   cfg : GenCfg := {}
+  /-- "" = the property's own acceptance; "nopanic" = C02: an outcome is accepted iff it is not a panic -/
+  mode : String := ""
 
 def splitBar (line : String) : List (List String) :=
   (line.splitOn " | ").map fun part => (part.splitOn " ").filter (· ≠ "")
@@ -39,7 +41,9 @@ def kfFlags (c : GenCfg) : List (String × GenCfg) :=
   (if c.setLostUpdate then [("set-lost-update", { c with setLostUpdate := false })] else []) ++
   (if c.setNilMapStorePanics then [("set-nil-map-store", { c with setNilMapStorePanics := false })] else []) ++
   (if c.setNilLeafPtrPanics then [("set-nil-leaf-ptr", { c with setNilLeafPtrPanics := false })] else []) ++
-  (if c.loopRootMapSkipped then [("loop-root-map-skipped", { c with loopRootMapSkipped := false })] else [])
+  (if c.loopRootMapSkipped then [("loop-root-map-skipped", { c with loopRootMapSkipped := false })] else []) ++
+  (if c.nilRootPanics then [("nil-root-panics", { c with nilRootPanics := false })] else []) ++
+  (if c.assignNilSrcPanics then [("assign-nil-src", { c with assignNilSrcPanics := false })] else [])
 
 def allFixed (c : GenCfg) : GenCfg :=
   (kfFlags c).foldl (fun _acc _x => GenCfg.fixed) c
@@ -51,7 +55,22 @@ property's acceptance relation, `impl` what the implementation did.
  * impl = model(repo), not accepted, no listed defect explains it → model-viol (unlisted violation)
  * impl ≠ model(repo), accepted                      → dev-ok   (tie broken, property still holds here)
  * impl ≠ model(repo), not accepted                  → dev-viol (concrete failing input) -/
-def classify {α : Type} [BEq α] (cfg : GenCfg) (model : GenCfg → α) (accepts : α → Bool) (impl : α) (sh : α → String) : String :=
+def classify {α : Type} [BEq α] (st : St) (model : GenCfg → α) (accepts0 : α → Bool) (impl : α) (sh : α → String)
+    (isPanic : α → Bool) (ptrForm : Option (GenCfg → α) := none) (nilRoot : Bool := false) : String :=
+  let cfg := st.cfg
+  -- typed-nil roots (C02 only): what exactly the emitted code evaluates before it dereferences the nil
+  -- root is not modelled; the model's answer there is "may panic"
+  if nilRoot then
+    (if isPanic impl then (if cfg.nilRootPanics then "known nil-root-panics" else "dev-viol typed-nil-root-panics")
+     else "agree") else
+  let accepts (o : α) : Bool :=
+    if st.mode == "nopanic" then !isPanic o
+    else if st.mode == "forms" then
+      -- C12: the answer through this argument form is the answer through a plain pointer
+      (match ptrForm with
+       | some m => o == m cfg
+       | none => accepts0 o)
+    else accepts0 o
   let m := model cfg
   if impl == m then
     if accepts m then "agree"
@@ -76,15 +95,18 @@ def opGet (st : St) (head : List String) (pathToks : List String) (outToks : Lis
     match st.types[tid]?, st.vals[vid]?, parseForm form, parsePath pathToks with
     | some n, some v, some f, some (p, _) =>
       match outToks with
-      | _mut :: out =>
+      | mutF :: out =>
+        if mutF == "1" then "dev-viol read-operation-modified-its-argument" else
         match parseGetOut out with
         | some impl =>
           let r := nav n v p
           let okOf (o : GetOut) : Bool :=
             match rootOf f with
             | .ok => getAccepts r o
-            | _ => true      -- nil / foreign roots: C02 and C12 territory
-          classify st.cfg (fun c => getM c n f v p) okOf impl showGetOut
+            | .early => o == .none     -- foreign / untyped nil: refused without effect (C12)
+            | _ => true                -- typed-nil roots: C02's territory
+          classify st (fun c => getM c n f v p) okOf impl showGetOut (fun o => o == .panic)
+            (if rootOf f == .ok then some (fun c => getM c n .ptr v p) else none) (match rootOf f with | .nilX | .panic => true | _ => false)
         | none => "skip unparsable-outcome"
       | [] => "skip no-outcome"
     | _, _, _, _ => "skip unresolved-input"
@@ -108,15 +130,18 @@ instance : BEq CmpOut := ⟨fun a b => decide (a = b)⟩
 
 def opCmp (st : St) (head pathToks argToks outToks : List String) : String :=
   match head, argToks, outToks with
-  | [_, tid, form, vid], [opTok, rightTok], [_mut, outTok] =>
+  | [_, tid, form, vid], [opTok, rightTok], [mutF, outTok] =>
     match st.types[tid]?, st.vals[vid]?, parseForm form, parsePath pathToks, opTok.toInt?, parseSeg rightTok, parseCmpOut outTok with
     | some n, some v, some f, some (p, _), some op, some right, some impl =>
+      if mutF == "1" then "dev-viol read-operation-modified-its-argument" else
       if right.pf == .inexact then "skip inexact-operand" else
       let okOf (o : CmpOut) : Bool :=
         match rootOf f with
         | .ok => cmpAccepts n v p op right o
+        | .early => o == .untouched
         | _ => true
-      classify st.cfg (fun c => cmpM c n f v p op right) okOf impl showCmpOut
+      classify st (fun c => cmpM c n f v p op right) okOf impl showCmpOut (fun o => o == .panic)
+        (if rootOf f == .ok then some (fun c => cmpM c n .ptr v p op right) else none) (match rootOf f with | .nilX | .panic => true | _ => false)
     | _, _, _, _, _, _, _ => "skip unresolved-input"
   | _, _, _ => "skip bad-record"
 
@@ -142,15 +167,18 @@ instance : BEq LcOut := ⟨fun a b => decide (a = b)⟩
 
 def opLC (st : St) (head pathToks argToks outToks : List String) : String :=
   match head, argToks, outToks with
-  | [_, tid, form, vid], [fn], [_mut, outTok] =>
+  | [_, tid, form, vid], [fn], [mutF, outTok] =>
     match st.types[tid]?, st.vals[vid]?, parseForm form, parsePath pathToks, parseLcOut outTok with
     | some n, some v, some f, some (p, _), some impl =>
+      if mutF == "1" then "dev-viol read-operation-modified-its-argument" else
       let isCap := fn == "cap"
       let okOf (o : LcOut) : Bool :=
         match rootOf f with
         | .ok => lcAccepts isCap n v p o
+        | .early => o == .unsupported || o == .untouched || o == .val 0
         | _ => true
-      classify st.cfg (fun c => lcM c isCap n f v p) okOf impl showLcOut
+      classify st (fun c => lcM c isCap n f v p) okOf impl showLcOut (fun o => o == .panic)
+        (if rootOf f == .ok then some (fun c => lcM c isCap n .ptr v p) else none) (match rootOf f with | .nilX | .panic => true | _ => false)
     | _, _, _, _, _ => "skip unresolved-input"
   | _, _, _ => "skip bad-record"
 
@@ -187,7 +215,8 @@ def parseOpts : List String → Option (Option DeqOpts)
 /-- D <tid> <fl> <fr> <vidA> <vidB> | <ident 0/1> | <opts> | <out(a,b)> <out(b,a)> -/
 def opDeq (st : St) (head identToks optToks outToks : List String) : String :=
   match head, identToks, outToks with
-  | [_, tid, fl, fr, va, vb], [identTok], [oab, oba, _mut] =>
+  | [_, tid, fl, fr, va, vb], [identTok], [oab, oba, mutF] =>
+    if mutF == "1" then "dev-viol read-operation-modified-its-argument" else
     match st.types[tid]?, st.vals[va]?, st.vals[vb]?, parseForm fl, parseForm fr, parseOpts optToks, parseDeqOut oab, parseDeqOut oba with
     | some n, some a, some b, some fl, some fr, some opts, some iab, some iba =>
       let ident := identTok == "1"
@@ -198,8 +227,12 @@ def opDeq (st : St) (head identToks optToks outToks : List String) : String :=
         | .ok, .ok =>
           let t := eqS { opts := opts, ident := ident } n "" a b
           deqAccepts t o.1 && deqAccepts t o.2 && o.1 == o.2
-        | _, _ => o.1 == o.2 || o.1 == .panic || o.2 == .panic    -- nil / foreign roots: symmetric; panics are C02's
-      classify st.cfg model okOf (iab, iba) (fun o => showDeqOut o.1 ++ "," ++ showDeqOut o.2)
+        | .early, _ | _, .early => o.1 == .f && o.2 == .f          -- an unrelated argument is refused with false (C12)
+        | _, _ => o.1 == o.2 || o.1 == .panic || o.2 == .panic    -- typed-nil roots: symmetric; panics are C02's
+      classify st model okOf (iab, iba) (fun o => showDeqOut o.1 ++ "," ++ showDeqOut o.2) (fun o => o.1 == .panic || o.2 == .panic)
+        (if rootOf fl == .ok && rootOf fr == .ok then some (fun c =>
+          (deqM { cfg := c, opts := opts, ident := ident } n .ptr .ptr a b, deqM { cfg := c, opts := opts, ident := ident } n .ptr .ptr b a)) else none)
+        (fl == .nilPtrPtr || fr == .nilPtrPtr)
     | _, _, _, _, _, _, _, _ => "skip unresolved-input"
   | _, _, _ => "skip bad-record"
 
@@ -214,6 +247,10 @@ def CpObs.beq : CpObs → CpObs → Bool
   | _, _ => false
 instance : BEq CpObs := ⟨CpObs.beq⟩
 
+def cpIsPanic : CpObs → Bool
+  | .other t => t == "panic"
+  | _ => false
+
 def showCpObs : CpObs → String
   | .ok s d m v => s!"ok {s} {d} {if m then 1 else 0} " ++ showVal v
   | .other t => t
@@ -221,7 +258,7 @@ def showCpObs : CpObs → String
 def parseCpObs (n : Node) : List String → Option CpObs
   | "ok" :: s :: d :: m :: rest => do
     let (v, _) ← parseVal rest
-    pure (.ok (← s.toNat?) d (m == "1") (dropCaps (coerce n v)))
+    pure (.ok (← s.toNat?) d (m == "1") (canon (dropCaps (coerce n v))))
   | [t] => some (.other t)
   | _ => none
 
@@ -230,7 +267,7 @@ def copyObsOf (cfg : GenCfg) (n : Node) (src : Val) (o : CopyOut) : CpObs :=
   | .ok v s =>
     -- pointer-typed map keys of the copy are found by DeepEqual exactly when the copy shares them
     let d := showDeqOut (deqM { cfg := cfg, ident := cfg.copyPtrShared } n .ptr .ptr src v)
-    .ok s d true (dropCaps v)
+    .ok s d true (canon (dropCaps v))
   | .panic => .other "panic"
   | .unsupported => .other "unsupported"
   | .mustPointer => .other "mustpointer"
@@ -252,7 +289,8 @@ def opCopy (st : St) (head outToks : List String) : String :=
        | some impl =>
          let refusal := match f with | .foreign | .untypedNil => some "unsupported" | _ => none
          let nilRoot := match rootOf f with | .ok | .early => false | _ => true
-         classify st.cfg (fun c => copyObsOf c n v (copyM c n f v)) (fun o => nilRoot || cpAccepts n v refusal o) impl showCpObs
+         classify st (fun c => copyObsOf c n v (copyM c n f v)) (fun o => nilRoot || cpAccepts n v refusal o) impl showCpObs cpIsPanic
+           (if rootOf f == .ok then some (fun c => copyObsOf c n v (copyM c n .ptr v)) else none) (match rootOf f with | .nilX | .panic => true | _ => false)
        | none => "skip unparsable-outcome")
     | _, _, _ => "skip unresolved-input"
   | _ => "skip bad-head"
@@ -270,14 +308,15 @@ def opCopyTo (st : St) (head outToks : List String) : String :=
            | _, .val => some "mustpointer"
            | _, .foreign | _, .untypedNil => some "unsupported"
            | _, _ => none
-         classify st.cfg (fun c => copyObsOf c n src (copyToM c n fs fd src dst)) (cpAccepts n src refusal) impl showCpObs
+         classify st (fun c => copyObsOf c n src (copyToM c n fs fd src dst)) (cpAccepts n src refusal) impl showCpObs cpIsPanic none
+           ((match rootOf fs with | .nilX | .panic => true | _ => false) || (match rootOf fd with | .nilX | .panic => true | _ => false))
        | none => "skip unparsable-outcome")
     | _, _, _, _, _ => "skip unresolved-input"
   | _ => "skip bad-head"
 
 def resetObsOf (o : ResetOut) : CpObs :=
   match o with
-  | .ok v => .ok 0 "-" true (dropCaps v)
+  | .ok v => .ok 0 "-" true (canon (dropCaps v))
   | .panic => .other "panic"
   | .unsupported => .other "unsupported"
   | .mustPointer => .other "mustpointer"
@@ -289,7 +328,7 @@ def opReset (st : St) (head outToks : List String) : String :=
     match st.types[tid]?, st.vals[vid]?, parseForm form with
     | some n, some v, some f =>
       let impl : Option CpObs := match outToks with
-        | "ok" :: rest => (parseVal rest).map fun (x, _) => CpObs.ok 0 "-" true (dropCaps (coerce n x))
+        | "ok" :: rest => (parseVal rest).map fun (x, _) => CpObs.ok 0 "-" true (canon (dropCaps (coerce n x)))
         | [t] => some (.other t)
         | _ => none
       (match impl with
@@ -301,7 +340,7 @@ def opReset (st : St) (head outToks : List String) : String :=
            | .ptr, .ok _ _ _ x | .ptrptr, .ok _ _ _ x => isEmptyV x
            | .nilPtr, _ | .ptrNilPtr, _ | .nilPtrPtr, _ => true
            | _, _ => false
-         classify st.cfg (fun c => resetObsOf (resetM c n f v)) acc impl showCpObs
+         classify st (fun c => resetObsOf (resetM c n f v)) acc impl showCpObs cpIsPanic none (match rootOf f with | .nilX | .panic => true | _ => false)
        | none => "skip unparsable-outcome")
     | _, _, _ => "skip unresolved-input"
   | _ => "skip bad-head"
@@ -314,8 +353,8 @@ def cycleModel (cfg : GenCfg) (n : Node) : Val → List Val → List CpObs
     | .panic => [.other "panic"]
     | .ok r =>
       match copyN cfg n true r s with
-      | .panic => [.ok 0 "r" true (dropCaps r), .other "panic"]
-      | .ok c _ => .ok 0 "r" true (dropCaps r) :: .ok 0 "c" true (dropCaps c) :: cycleModel cfg n c rest
+      | .panic => [.ok 0 "r" true (canon (dropCaps r)), .other "panic"]
+      | .ok c _ => .ok 0 "r" true (canon (dropCaps r)) :: .ok 0 "c" true (canon (dropCaps c)) :: cycleModel cfg n c rest
 
 partial def parseCycleSteps (n : Node) : List (List String) → Option (List CpObs)
   | [] => some []
@@ -323,8 +362,8 @@ partial def parseCycleSteps (n : Node) : List (List String) → Option (List CpO
     let parts := (" ".intercalate step).splitOn " ; "
     let one (p : String) : Option CpObs :=
       match (p.splitOn " ").filter (· ≠ "") with
-      | "r" :: toks => (parseVal toks).map fun (x, _) => CpObs.ok 0 "r" true (dropCaps (coerce n x))
-      | "c" :: toks => (parseVal toks).map fun (x, _) => CpObs.ok 0 "c" true (dropCaps (coerce n x))
+      | "r" :: toks => (parseVal toks).map fun (x, _) => CpObs.ok 0 "r" true (canon (dropCaps (coerce n x)))
+      | "c" :: toks => (parseVal toks).map fun (x, _) => CpObs.ok 0 "c" true (canon (dropCaps (coerce n x)))
       | [t] => some (.other t)
       | _ => none
     do
@@ -349,8 +388,8 @@ def opCycle (st : St) (parts : List (List String)) : String :=
     | some n, some d0, some srcs =>
       (match parseCycleSteps n steps with
        | some impl =>
-         classify st.cfg (fun c => cycleModel c n d0 srcs) (cycleAccepts srcs) impl
-           (fun l => " / ".intercalate (l.map showCpObs))
+         classify st (fun c => cycleModel c n d0 srcs) (cycleAccepts srcs) impl
+           (fun l => " / ".intercalate (l.map showCpObs)) (fun l => l.any cpIsPanic)
        | none => "skip unparsable-outcome")
     | _, _, _ => "skip unresolved-input"
   | _ => "skip bad-record"
@@ -373,7 +412,7 @@ def showAssignObs (o : AssignObs) : String :=
 
 def assignObsModel (c : GenCfg) (dk : DynKind) (old : Val) (s : Src) (bufMode : String) : Option AssignObs :=
   let noBuf := bufMode == "none"
-  match assignM { strAppendsOld := c.strAppendsOld } dk old s noBuf with
+  match assignM { strAppendsOld := c.strAppendsOld, nilSrcPanics := c.assignNilSrcPanics } dk old s noBuf with
   | .panic => some { panicked := true }
   | .inexact => none
   | .no => some { ret := false, v := old, inBuf := (if noBuf || contentLen old == 0 then "-" else "0") }
@@ -399,8 +438,8 @@ def opAssign (st : St) (head srcToks modeToks outToks : List String) : String :=
        | some impl, some _ =>
          -- the in-buffer flag of an untouched / aliased destination is not part of the tie
          let norm (o : AssignObs) : AssignObs := if o.inBuf == "1" then o else { o with inBuf := "-" }
-         classify st.cfg (fun c => norm ((assignObsModel c dk old src bufMode).getD {}))
-           (fun o => assignAccepts dk old src (bufMode != "none") o) (norm impl) showAssignObs
+         classify st (fun c => norm ((assignObsModel c dk old src bufMode).getD {}))
+           (fun o => assignAccepts dk old src (bufMode != "none") o) (norm impl) showAssignObs (fun o => o.panicked)
        | none, _ => "skip unparsable-outcome"
        | _, none => "skip inexact-operand")
     | _, _ => "skip unresolved-input"
@@ -445,13 +484,14 @@ def opSet (st : St) (head pathToks srcToks modeToks outToks : List String) : Str
          let acc (o : SetObs) : Bool :=
            match rootOf f, f with
            | .ok, .val => true       -- by-value destination: only C02 (no panic) applies
+           | .early, _ => o == .ok (canon (dropCaps v))     -- refused without side effects
            | .ok, _ =>
              (match o with
               | .ok r => setAccepts n v p src (.ok r)
               | .err r => setAccepts n v p src (.err r)
               | .panic => setAccepts n v p src .panic)
            | _, _ => true
-         classify st.cfg (fun c => setObsOf (setM c n f v p src noBuf)) acc impl showSetObs
+         classify st (fun c => setObsOf (setM c n f v p src noBuf)) acc impl showSetObs (fun o => match o with | .panic => true | _ => false) none (match rootOf f with | .nilX | .panic => true | _ => false)
        | none => "skip unparsable-outcome")
     | _, _, _, _, _ => "skip unresolved-input"
   | _, _ => "skip bad-record"
@@ -495,9 +535,10 @@ def ftextOf (gs : List ObsGroup) (v : Val) : Bytes :=
 /-- L <tid> <form> <vid> | <path> | <wantkey bits> <ctl digits> | <fin> <mut> <n> | group | group … -/
 def opLoop (st : St) (parts : List (List String)) : String :=
   match parts with
-  | [_, tid, form, vid] :: pathToks :: [wk, ck] :: [fin, _mut, _cnt] :: groupToks =>
+  | [_, tid, form, vid] :: pathToks :: [wk, ck] :: [fin, mutF, _cnt] :: groupToks =>
     match st.types[tid]?, st.vals[vid]?, parseForm form, parsePath pathToks with
     | some n, some v, some f, some (p, _) =>
+      if mutF == "1" then "dev-viol read-operation-modified-its-argument" else
       let sc : LoopScript := { wantKey := wk.toList.map (· == '1'), ctl := ck.toList.map (fun c => c.toNat - 48) }
       (match groupToks.mapM (parseObsGroup n) with
        | some gs =>
@@ -518,12 +559,19 @@ def opLoop (st : St) (parts : List (List String)) : String :=
              { groups := canonL (if sub then implStrs else ms), fin := finStr r.fin }
            else { groups := ms, fin := finStr r.fin }
          let accImpl : Bool :=
+           if st.mode == "nopanic" then fin != "panic" else
+           if st.mode == "forms" && rootOf f == .ok then
+             (let r := loopM st.cfg sc ftext n .ptr v p
+              impl == model st.cfg && finStr r.fin == fin) else
            match rootOf f with
            | .ok => loopAccepts sc n v p gs (if fin == "done" then .done else if fin == "panic" then .panic else .err)
+           | .early => gs.isEmpty && fin == "done"
            | _ => true
          let m := model st.cfg
          let shown := "; ".intercalate m.groups ++ " " ++ m.fin
-         if impl == m then
+         if (match rootOf f with | .nilX | .panic => true | _ => false) then
+           (if fin == "panic" then (if st.cfg.nilRootPanics then "known nil-root-panics" else "dev-viol typed-nil-root-panics") else "agree")
+         else if impl == m then
            if accImpl then "agree"
            else
              let cls := (kfFlags st.cfg).filter (fun (_, c') => !(model c' == m))
@@ -547,6 +595,7 @@ def handle (st : St) (line : String) : St × Option String :=
     | some (v, _), some n => ({ st with vals := st.vals.insert vid (coerce n v) }, none)
     | some (v, _), none => ({ st with vals := st.vals.insert vid v }, none)
     | none, _ => (st, none)       -- values the model cannot name (inexact floats): ops on them are skipped
+  | ["MODE", m] :: _ => ({ st with mode := m }, none)
   | ["CFG", k, v] :: _ =>
     if k == "fallThroughAlways" then ({ st with cfg := { st.cfg with fallThroughAlways := v == "1" } }, none)
     else (st, none)
